@@ -568,6 +568,7 @@ func c11(c *core.Check) {
 	c11Offsets(c)
 	c11WordBreak(c)
 	c11Justify(c)
+	c11LastLine(c)
 	r9 := c.Rule("R9", "running extrema: every guarded update `if a < b { c = a }` of the inline layout and text code compares the new value with the variable it updates (the line's running top, bottom, width …): a comparison with another variable overwrites the extremum instead of extending it", 3)
 	extremumRule(c, r9, "html/layout", 10)
 	extremumRule(c, r9, "text", 2)
@@ -694,6 +695,8 @@ func c12(c *core.Check) {
 	c12PageBox(c)
 	c12Orphans(c)
 	c12Sides(c)
+	c12RepeatedGroups(c)
+	c12Retry(c)
 	r4b := c.Rule("R4", "no call passes two same-typed arguments under each other's parameter names (swapped arguments): every pair of arguments named after the callee's parameters is aligned with them", 26)
 	argNameRule(c, r4b, "html/layout", map[string]bool{"blocks.go": true, "pages.go": true, "columns.go": true}, 40)
 }
